@@ -47,6 +47,14 @@ func (c *calib) Rep(n, r uint32) (uint32, bool) {
 	if c.fail[n] {
 		return r, false
 	}
+	if tape.InRead() {
+		// asked from inside a Read of the code under test: calling the
+		// sampler now would re-enter the library. Serve the textbook guess
+		// unverified; bounds up to 512 are calibrated at start-up and big
+		// bounds by the checks that use them, so this is rare and counted.
+		inlineGuesses++
+		return r, true
+	}
 	saved := curTape()
 	defer tape.Install(saved)
 	K := (uint64(1) << 32) / uint64(n)
@@ -70,6 +78,18 @@ func (c *calib) Rep(n, r uint32) (uint32, bool) {
 	}
 	c.fail[n] = true
 	return r, false
+}
+
+var inlineGuesses int
+
+// precalibrate fills the representative table for every bound up to max.
+func precalibrate(max uint32) {
+	for n := uint32(1); n <= max; n++ {
+		for r := uint32(0); r < n; r++ {
+			cal.Rep(n, r)
+		}
+		rejectWords(n)
+	}
 }
 
 var tapeNow *tape.Tape
